@@ -272,7 +272,8 @@ func afterValue(q JState, b int) JState {
 // endNumber handles the byte that terminates a number (the number is complete).
 func endNumber(q JState, b int) JState {
 	if q.Kinds.Len() > 0 {
-		return afterValue(q, b)
+		// the number is stored (under the pending key) or pushed, then b is read as after any value
+		return afterValue(valueDone(q), b)
 	}
 	if IsWS(b) {
 		return consume(valueDone(q), b)
